@@ -16,7 +16,7 @@
                       `fcNet_three`, `fcNet_activation_order_matters`, `fastLinear_ne_plain_unshared` (the precondition is needed)
   * coded backward:   `vjp_input`, `vjp_weight`, `vjp_bias` (exact vector-Jacobian products of the affine layer),
                       `gradWeight_eq_plain`, `gradInput_adjoint` (second order)
-  * histories:        `Hist.fb_holds`, `Hist.fb_frame`, `Hist.fb_draws`, `Hist.fb_shares_functions`, `Hist.history_last_fb`,
+  * histories:        `Hist.fb_holds`, `Hist.fb_frame`, `Hist.fix_holds`, `Hist.fix_frame`, `Hist.fb_draws`, `Hist.fb_shares_functions`, `Hist.history_last_fb`,
                       `Hist.stepOld_stale`, `Hist.stepOld_second_model_empty` (negative results about the pinned snapshot)
   Non-vacuity examples (concrete data meeting the hypotheses) are collected at the end of the file.
 -/
@@ -1105,6 +1105,26 @@ theorem fb_shares_functions (σ σ1 σ2 : St) (m1 m2 s : Nat) (k : Int)
   have hk : ¬ (k ≠ σ1.iter s) := by simp [a.2.1]
   rw [if_neg hk] at c
   exact ⟨c, by rw [b.1, c]⟩
+
+/-- **a directly supplied input is ALWAYS evaluated anew**: after `fix_branch_input` / `forward(x, branch_inputs)`
+    the model holds the features of exactly the (object, content, weights) version `tag` that was handed over —
+    whatever it held before, in particular also when the very same object was handed over the time before
+    (there is no "same object ⇒ skip" in the state machine) -/
+theorem fix_holds (σ σ' : St) (m tag : Nat) (h : step σ (.fix m tag) = some σ') :
+    σ'.holds m = .fixed tag := by
+  simp only [step, Option.some.injEq] at h
+  subst h
+  simp [upd_same]
+
+/-- … and it touches nothing else: other models, all function sets -/
+theorem fix_frame (σ σ' : St) (m tag : Nat) (h : step σ (.fix m tag) = some σ') :
+    (∀ m', m' ≠ m → σ'.holds m' = σ.holds m') ∧ σ'.iter = σ.iter ∧ σ'.draws = σ.draws := by
+  simp only [step, Option.some.injEq] at h
+  subst h
+  exact ⟨fun m' hm => upd_other _ _ _ _ hm, rfl, rfl⟩
+
+/-- handing over the same object twice with a change in between: the second call holds the NEW version -/
+example : (run step init [.fix 0 0, .fix 0 1]).map (fun σ => σ.holds 0) = some (.fixed 1) := by decide
 
 theorem run_append (stp : St → Op → Option St) : ∀ (h : List Op) (σ : St) (o : Op),
     run stp σ (h ++ [o]) = (run stp σ h).bind (fun σ' => stp σ' o)
